@@ -11,7 +11,7 @@ start, end, length, letter, Letter, roman, Roman).
 attributed to a known cause (stable tags): {"text_keyword"} = DESIGN D13."""
 import html
 
-from talgen import Elem, Text, Raw, split_semi, plain_attrs, source_parts, RefCV
+from talgen import Elem, Text, Raw, split_semi, plain_attrs, source_parts, RefCV, IterLike
 
 DEFAULT = object()
 
@@ -32,11 +32,13 @@ class MacroRef:
 
 class RepeatState:
     def __init__(self, seq):
-        self.seq = seq
+        self.seq = seq              # None: the source is an iterator, its length is not known
         self.pos = 0
 
     def lookup(self, name):
         n = self.pos
+        if self.seq is None and name in ("end", "length"):
+            raise OutOfScope("repeat/x/%s over an iterator" % name)
         if name == "index":
             return n
         if name == "number":
@@ -419,6 +421,31 @@ class Ref:
                     return
                 if isinstance(seq, dict):
                     raise OutOfScope("repeat over a mapping (D20)")
+                if isinstance(seq, IterLike):
+                    # not a sequence: one instance per value the iterator yields; nothing at all (no scope, no
+                    # repeat variable) when it yields none
+                    it = seq.__iter__() if hasattr(seq, "__iter__") else seq
+                    try:
+                        item = next(it)
+                    except StopIteration:
+                        return
+                    st = RepeatState(None)
+                    self.repeat.append(dict(self.repeat[-1]))
+                    self.repeat[-1][var] = st
+                    self.locals.append({})
+                    try:
+                        while True:
+                            self.locals[-1][var] = item
+                            self.rest(e, attrs, slots)
+                            try:
+                                item = next(it)
+                            except StopIteration:
+                                break
+                            st.pos += 1
+                    finally:
+                        self.locals.pop()
+                        self.repeat.pop()
+                    return
                 try:
                     n = len(seq)
                 except TypeError:
